@@ -26,7 +26,7 @@ NOTE = "trusted: z3, CPython, the SymTensor proxy layer (differentially validate
 
 CLAIMED = {
     "C11": {
-        "level_text": "bounded symbolic verification of the real segment trees and PrioritizedReplayBuffer: one arbitrary operation (add of width n, update_priorities with arbitrary indices/priorities incl. repeats and values < 1e-5, sample with arbitrary uniform variates) from an ARBITRARY state satisfying the representation invariant (capacity N<=5(8; batch 1 above 5), symbolic count/leaves/max_priority/alpha/beta) re-establishes the invariant (internal = op(children), root sum/min = direct computation, tree_ptr = cursor), gives new items max_priority^alpha, samples only live indices whose own prefix interval contains the query mass (hence P(i) ∝ p_i^alpha for uniform variates), and returns weights (N·P(i))^-beta / max_j(...) in (0,1]; x**a is an uninterpreted function with positivity/monotonicity axioms; plus, in IEEE-754 double arithmetic (z3 FloatingPoint, round-nearest-even, capacity<=4(8), leaves in [0,1e150]): after SumSegmentTree.__setitem__ every internal node is the ROUNDED sum of its children and the total is the pairwise sum of the stored priorities",
+        "level_text": "bounded symbolic verification of the real segment trees and PrioritizedReplayBuffer: one arbitrary operation (add of width n, update_priorities with arbitrary indices/priorities incl. repeats and values < 1e-5, sample with arbitrary uniform variates) from an ARBITRARY state satisfying the representation invariant (capacity N<=5 for sample, <=8 for add, <=6 for update; symbolic count/leaves/max_priority/alpha/beta) re-establishes the invariant (internal = op(children), root sum/min = direct computation, tree_ptr = cursor), gives new items max_priority^alpha, samples only live indices whose own prefix interval contains the query mass (hence P(i) ∝ p_i^alpha for uniform variates), and returns weights (N·P(i))^-beta / max_j(...) in (0,1]; x**a is an uninterpreted function with positivity/monotonicity axioms; plus, in IEEE-754 double arithmetic (z3 FloatingPoint, round-nearest-even, capacity<=4(8), leaves in [0,1e150]): after SumSegmentTree.__setitem__ every internal node is the ROUNDED sum of its children and the total is the pairwise sum of the stored priorities",
         "level_note": NOTE + "; pow as UF (sound for proofs; counterexamples replayed with the real pow); floating-point rounding in retrieve() and in the weights is outside the claim (only the sum tree's update is decided on doubles)",
         "technique": TECH,
     },
